@@ -111,7 +111,7 @@ def run(ctx):
                 raise vf.Infra("replay file holds no Scenario event")
         else:
             fm = ex.submit(model_check, ctx)
-            keep, keepf = (90, 130) if ctx.quick else (9, 13)
+            keep, keepf = (90, 130) if ctx.quick else (2, 1)
             p = vf.gen_cases(ctx, "ChainStore_Gen", {"N": 3, "MaxLen": 4, "Seed": ctx.seed % 997, "Keep": keep, "KeepF": keepf, "MaxWrite": 10}, timeout=1500, heap="6g")
             cases = make_cases(ctx, [json.loads(x) for x in vf.read_lines(p)])
             fm.result()
